@@ -17,6 +17,7 @@ import (
 	"github.com/akrennmair/updog/verifharness/mon"
 	"github.com/akrennmair/updog/verifharness/oracle"
 	"github.com/akrennmair/updog/verifharness/vf"
+	"go.etcd.io/bbolt"
 )
 
 func init() { register("C16", "exploration", runC16) }
@@ -60,6 +61,10 @@ func c16Clobber(r *vf.Run) {
 		{"partial-index", func(p string) { _ = os.WriteFile(p, validBytes[:len(validBytes)/2], 0o644) }},
 		{"read-only-mode", func(p string) { _ = os.WriteFile(p, validBytes, 0o444) }},
 		{"text", func(p string) { _ = os.WriteFile(p, []byte("precious\n"), 0o600) }},
+		{"hardlink-to-valid-index", func(p string) {
+			_ = os.WriteFile(p+".target", validBytes, 0o644)
+			_ = os.Link(p+".target", p)
+		}},
 		{"symlink-to-valid-index", func(p string) {
 			_ = os.WriteFile(p+".target", validBytes, 0o644)
 			_ = os.Symlink(p+".target", p)
@@ -79,7 +84,8 @@ func c16Clobber(r *vf.Run) {
 					continue
 				}
 				r.Guard(cid, func() {
-					out := filepath.Join(dir, vf.Digest(cid)+".out")
+					// output names with various extensions (scratch files derived from the output name must not collide with it)
+					out := filepath.Join(dir, vf.Digest(cid)+[]string{".out", ".tmp", ".updog", "", ".bak", ".db", ".updog.tmp", ".lock"}[len(cid)%8])
 					p.make(out)
 					before := mon.StatFile(out)
 					w := map[string]any{"preexisting": p.kind, "writer_content": c.name, "entry_point": entry, "before": before.String()}
@@ -108,11 +114,22 @@ func c16Clobber(r *vf.Run) {
 					default:
 						in := filepath.Join(dir, vf.Digest(cid)+".csv")
 						_ = os.WriteFile(in, []byte(csv.Text), 0o644)
-						args := []string{"create", "-o", out}
+						// the output path spelled absolutely, relatively ("./name", "name", "sub/../name") from its directory
+						spell := []string{out, "./" + filepath.Base(out), filepath.Base(out), "x/../" + filepath.Base(out)}[len(cid)%4]
+						_ = os.MkdirAll(filepath.Join(dir, "x"), 0o755)
+						args := []string{"create", "-o", spell}
 						if strings.HasSuffix(entry, "-b") {
 							args = append(args, "-b")
 						}
-						res := runChild(r, binPath("updog"), append(args, in), childOpts{Timeout: 2 * time.Minute})
+						inArg := in
+						if p.kind == "text" && c.name == "small" {
+							inArg = out // the input file IS the output path
+							_ = os.WriteFile(out, []byte(csv.Text), 0o600)
+							before = mon.StatFile(out)
+							w["input_is_output"] = true
+						}
+						w["output_spelled"] = spell
+						res := runChild(r, binPath("updog"), append(args, inArg), childOpts{Timeout: 2 * time.Minute, Dir: dir})
 						if res.TimedOut {
 							hangVerdict(r, cid, res, w)
 							return
@@ -139,6 +156,12 @@ func c16Clobber(r *vf.Run) {
 					if lst, err := os.Lstat(out); p.kind == "symlink-to-valid-index" && (err != nil || lst.Mode()&os.ModeSymlink == 0) {
 						r.Violation(cid, "existing-symlink-replaced", w)
 					}
+					if p.kind == "hardlink-to-valid-index" {
+						if t := mon.StatFile(out + ".target"); t.SHA != before.SHA {
+							w["other_name_of_the_file"] = t.String()
+							r.Violation(cid, "existing-file-changed", w)
+						}
+					}
 					_ = os.Chmod(out, 0o644)
 					os.Remove(out)
 					os.Remove(out + ".target")
@@ -162,6 +185,14 @@ var c16OptionSets = []struct {
 		return updog.OpenIndex(p, updog.WithPreloadedData(), updog.WithCache(updog.NewLRUCache(1<<20)))
 	}},
 	{"via-bolt-db", func(p string) (*updog.Index, error) { return ix.OpenViaBolt(p, ix.OpenOnDemand, nil) }},
+	{"via-read-write-bolt-db+preloaded", func(p string) (*updog.Index, error) {
+		// the caller hands over a handle it opened read-write: reading the index through it must still not write
+		db, err := bbolt.Open(p, 0o644, &bbolt.Options{Timeout: 10 * time.Second})
+		if err != nil {
+			return nil, err
+		}
+		return updog.OpenIndexFromBoltDatabase(db, updog.WithPreloadedData(), updog.WithCache(updog.NewLRUCache(10000)))
+	}},
 }
 
 func c16ReadOnly(r *vf.Run) {
